@@ -7,7 +7,7 @@ run by tools/translate_index.py) and the configuration model `Model/Pipeline.lea
 
 Reading guide
   §1  shape / documented errors of the prediction set
-  §2  in-bounds theorems over a FIXED LIST of index sites (DESIGN C01 item 3 + a few added ones; about 75 generated
+  §2  in-bounds theorems over a FIXED LIST of index sites (DESIGN C01 item 3 + a few added ones; about 90 generated
       expressions out of the several hundred index / slice expressions of the library — every other access is covered
       by the sanitizer sweep only)
   §3  exception tables: catch/rethrow map, foreign throws, exit()
